@@ -116,14 +116,43 @@ _base_search = search
 
 
 def correspond(ctx):  # noqa: F811
-    _base_correspond(ctx)
-    _sched.restart_part(ctx, PROP, ctx.scale(300, 3000))
-    ctx.rule += ("; + dependency collection: 2-6 really submitted (dry-run) tasks, each embedding earlier ones at random positions (direct, list, dict, Meta, nested "
-                 "configuration 1-3 deep, list of nested, task output direct/list/dict/nested, pre-task, pre-task's nested configuration, init task, explicit)")
-    _deps_part(ctx, ctx.scale(120, 1500))
+    # real experiments whose jobs go through different launchers (direct / Slurm with the whole sacct life of a job): real job
+    # processes, started first and collected last so that they run while the single-stepped parts use the other cores
+    from . import c04x_launchers
+    collect = c04x_launchers.start(ctx, ctx.scale(LAUNCHER_CASES_QUICK, LAUNCHER_CASES_THOROUGH))
+    try:
+        _base_correspond(ctx)
+        _sched.restart_part(ctx, PROP, ctx.scale(300, 3000))
+        ctx.rule += ("; + dependency collection: 2-6 really submitted (dry-run) tasks, each embedding earlier ones at random positions (direct, list, dict, Meta, nested "
+                     "configuration 1-3 deep, list of nested, task output direct/list/dict/nested, pre-task, pre-task's nested configuration, init task, explicit)")
+        _deps_part(ctx, ctx.scale(120, 1500))
+    except BaseException:
+        collect()
+        raise
+    c04x_launchers.finish(ctx, collect)
 
 
 def search(ctx):  # noqa: F811
     _base_search(ctx)
     if not ctx.monitor_failures:
         _deps_part(ctx, 600)
+    if not ctx.monitor_failures:
+        from . import c04x_launchers
+        c04x_launchers.part(ctx, 36)
+
+
+LAUNCHER_CASES_QUICK, LAUNCHER_CASES_THOROUGH = 18, 120
+_base_replay = replay
+
+
+def replay(ctx, obj):  # noqa: F811
+    from . import c04x_launchers
+    rc = 0
+    mine = [f for f in obj.get("failures", []) if f["case"].get("engine") == "launchers"]
+    for f in mine:
+        fails = c04x_launchers.replay(ctx, f["case"])
+        print("replay:", [w[:400] for _, w in fails[:2]] if fails else "no failure on this tree")
+        if fails:
+            rc = 1
+            print(f"VIOLATION property={PROP} replay=(replayed)")
+    return max(rc, _base_replay(ctx, dict(obj, failures=[f for f in obj.get("failures", []) if f not in mine])))
